@@ -9,12 +9,20 @@ import pandas as pd
 
 
 def same_series(a, b):
+    if a is b:
+        return True
     try:
-        if len(a) != len(b) or a.dtype != b.dtype or not a.index.equals(b.index) or a.name != b.name:
+        if len(a) != len(b) or str(a.dtype) != str(b.dtype) or not a.index.equals(b.index) or a.name != b.name:
             return False
+    except Exception:  # noqa
+        return False
+    try:
         if a.equals(b):
             return True
-        return all((x is y) or (x == y) or (x != x and y != y) for x, y in zip(list(a), list(b)))
+    except Exception:  # noqa   (pandas cannot hash some categorical dtypes)
+        pass
+    try:
+        return all((x is y) or bool(x == y) or (x != x and y != y) for x, y in zip(list(a), list(b)))
     except Exception:  # noqa
         return False
 
@@ -112,6 +120,14 @@ def c04_one(ts, tsname, x, backend):
     except Exception:  # noqa
         return fails
     if isinstance(t, dict):
+        try:
+            t2 = ts.infer_type(c)
+        except Exception as e:  # noqa
+            F(f"inferring the already cast frame raised {type(e).__name__}", f"reinfer-raises:frame:{type(e).__name__}")
+            return fails
+        for col in t:
+            if t2.get(col) is not t[col]:
+                F(f"column {col!r}: infer_type(cast_to_inferred(df)) = {t2.get(col)} but infer_type(df) = {t[col]}", f"not-fixpoint:frame:{t[col]}->{t2.get(col)}")
         return fails
     try:
         t2 = ts.infer_type(c)
@@ -196,6 +212,8 @@ def decode_chain(path, v):
     names = [p.__name__ for p in path]
     cur = v
     for a, b in zip(names, names[1:]):
+        if isnull(cur):
+            return float("nan")          # text such as 'nan' / 'NaT' decodes to a missing value, which stays missing
         if (a, b) == ("String", "Float"):
             cur = float(cur)
         elif (a, b) == ("Float", "Integer"):
@@ -256,6 +274,19 @@ def c06_one(ts, tsname, x, backend):
 
     def F(what, cls, **kw):
         fails.append(dict(what=what, **{"class": cls}, typeset=tsname, backend=backend, **kw))
+    if isinstance(x, pd.DataFrame):
+        try:
+            cf = ts.cast_to_inferred(x)
+        except Exception:  # noqa
+            return fails
+        for col in x.columns:
+            try:
+                cs = ts.cast_to_inferred(x[col])
+            except Exception:  # noqa
+                continue
+            if col not in cf.columns or not same_series(cf[col], cs):
+                F(f"column {col!r} of the cast frame differs from the cast of the column alone", "frame-column")
+        return fails
     if not isinstance(x, pd.Series):
         return fails
     try:
